@@ -493,7 +493,10 @@ def finish(ctx, rule, assumptions, trusted_base, explanation=None):
         seen.add(k.get("key"))
         print("KNOWN-FINDING: property=%s %s" % (ctx.prop, k.get("what", what)))
     if ctx.violations:
-        for what, payload, found in ctx.violations[:5]:
+        # concrete failing inputs first; a broken proof / tie without one is still reported
+        conc = [v for v in ctx.violations if v[2]]
+        tie = [v for v in ctx.violations if not v[2]]
+        for what, payload, found in (conc[:5] + tie[:2] if conc else tie[:5]):
             p = write_replay(ctx, payload)
             tail = "" if found else " no-failing-input-found"
             print("VIOLATION property=%s replay=%s%s" % (ctx.prop, p, tail))
